@@ -21,6 +21,8 @@ import (
 	"math"
 	"os"
 	"sort"
+	"strings"
+	"unicode"
 
 	"github.com/go-text/typesetting/di"
 	"github.com/go-text/typesetting/font"
@@ -59,6 +61,8 @@ type FontRef struct {
 //	split   shaping.Segmenter.Split over the own faces
 //	wrap    shape + LineWrapper.WrapParagraph
 //	fmadd / fmresolve   private fontscan.FontMap: AddFace, SetQuery+SetScript+ResolveFace
+//	fmsys   private FontMap: UseSystemFonts (global index behind sync.Once; switching suspended while it
+//	        runs, see sched.Hold) then SetQuery+ResolveFace over lazily loaded system fonts
 type SOp struct {
 	K     string       `json:"k"`
 	F     int          `json:"f"`
@@ -80,7 +84,13 @@ type SCCase struct {
 	Plan   sched.Plan `json:"plan"`
 	// ParkFrac positions a sweep plan's park point as a fraction (per 10000) of task A's solo tick count.
 	ParkFrac int `json:"park_frac,omitempty"`
+	// SysFonts: corpus files installed as "system fonts" in a scratch directory (op fmsys): the
+	// process-global font index behind fontscan's sync.Once is then built during the concurrent phase
+	SysFonts []string `json:"sys_fonts,omitempty"`
 }
+
+var scSysFonts = []string{"ot:common/Roboto-BoldItalic.ttf", "ot:common/NotoSansArabic.ttf", "ot:common/Lmmono-italic.otf", "ot:toys/Var1.ttf",
+	"ot:common/DejaVuSansMono.ttf", "ot:common/Go-Mono-Bold-Italic.ttf", "ot:toys/CFF2-VF.otf", "ot:common/Raleway-v4020-Regular.otf"}
 
 var scFonts = []string{
 	"ot:common/Roboto-BoldItalic.ttf", "ot:common/Raleway-v4020-Regular.otf", "ot:common/Commissioner-VF.ttf", "ot:toys/CFF2-VF.otf",
@@ -122,7 +132,7 @@ func (e *scEngine) Generate(seed uint64, tier string, run int) (json.RawMessage,
 	if tier == "thorough" && rk.Chance(0.05) {
 		nTasks = rk.Range(16, 64)
 	}
-	kinds := []string{"glyphs", "fontq", "hbshape", "shape", "split", "wrap", "fmadd", "fmresolve", "vars", "face"}
+	kinds := []string{"glyphs", "fontq", "hbshape", "shape", "split", "wrap", "fmadd", "fmresolve", "vars", "face", "fmsys"}
 	weights := make([]int, len(kinds))
 	for i := range weights {
 		if rk.Chance(0.7) {
@@ -130,6 +140,18 @@ func (e *scEngine) Generate(seed uint64, tier string, run int) (json.RawMessage,
 		}
 	}
 	weights[rk.Intn(4)] += 3
+	// system fonts in a quarter of the runs only (each such run scans a scratch directory twice)
+	weights[len(kinds)-1] = 0
+	var sysRunes []rune
+	if rk.Chance(0.25) {
+		weights[len(kinds)-1] = rk.Range(2, 6)
+		for _, i := range rk.Perm(len(scSysFonts))[:rk.Range(2, 4)] {
+			c.SysFonts = append(c.SysFonts, scSysFonts[i])
+			if fs := corpus.Fonts(scSysFonts[i]); len(fs) > 0 {
+				sysRunes = append(sysRunes, cmapSample(fs[0], 12)...)
+			}
+		}
+	}
 	opsPer := rk.Range(2, 10)
 	if nTasks > 8 {
 		opsPer = rk.Range(1, 3)
@@ -164,6 +186,11 @@ func (e *scEngine) Generate(seed uint64, tier string, run int) (json.RawMessage,
 			case "vars":
 				op.Vars = genVars(rg)
 				op.N = rg.Intn(3)
+			case "fmsys":
+				for i := rg.Range(2, 10); i > 0 && len(sysRunes) > 0; i-- {
+					op.Text += string(kernel.Pick(rg, sysRunes))
+				}
+				op.Lang = kernel.Pick(rg, []string{"roboto", "noto sans arabic", "serif", "monospace", "dejavu sans mono", "latin modern mono", "unknown family"})
 			}
 			prog = append(prog, op)
 		}
@@ -192,6 +219,9 @@ func (e *scEngine) Generate(seed uint64, tier string, run int) (json.RawMessage,
 		c.Plan.Kind = "sequential"
 	}
 	c.Plan.Order = rs.Perm(nTasks)
+	if len(c.SysFonts) > 0 && !sweep {
+		c.Plan.SwitchAfterHold = rs.Chance(0.6)
+	}
 	return json.Marshal(c)
 }
 
@@ -224,10 +254,11 @@ const (
 	kWrap
 	kFmadd
 	kFmresolve
+	kFmsys
 )
 
 var kindIDs = map[string]int{"face": kFace, "vars": kVars, "glyphs": kGlyphs, "fontq": kFontq, "hbshape": kHbshape, "shape": kShape,
-	"split": kSplit, "wrap": kWrap, "fmadd": kFmadd, "fmresolve": kFmresolve}
+	"split": kSplit, "wrap": kWrap, "fmadd": kFmadd, "fmresolve": kFmresolve, "fmsys": kFmsys}
 
 func compile(prog []SOp, nFonts int) []cop {
 	out := make([]cop, len(prog))
@@ -242,7 +273,10 @@ func compile(prog []SOp, nFonts int) []cop {
 		for _, f := range op.Feats {
 			c.hfeats = append(c.hfeats, harfbuzz.Feature{Tag: ot.MustNewTag(pad4(f.Tag)), Value: f.Val, Start: harfbuzz.FeatureGlobalStart, End: harfbuzz.FeatureGlobalEnd})
 		}
-		c.script = scriptOf(c.text)
+		c.script = scriptNoLib(c.text)
+		if c.k == kFmsys {
+			c.fam, c.lang = op.Lang, ""
+		}
 		out[i] = c
 	}
 	return out
@@ -257,6 +291,19 @@ type taskState struct {
 	wrap   shaping.LineWrapper
 	fm     *fontscan.FontMap
 	fmSeq  int
+	sys    bool // UseSystemFonts done on fm
+}
+
+// sysCacheDir: cache directory handed to UseSystemFonts (set by Execute before any task starts)
+var sysCacheDir string
+
+func baseName(p string) string {
+	for i := len(p) - 1; i >= 0; i-- {
+		if p[i] == '/' {
+			return p[i+1:]
+		}
+	}
+	return p
 }
 
 func mix(h, x uint64) uint64 { return kernel.SplitMix64(h ^ x) }
@@ -439,6 +486,34 @@ func (t *taskState) exec(c *cop) (h uint64) {
 				}
 			}
 		}
+	case kFmsys:
+		if t.fm == nil {
+			t.fm = fontscan.NewFontMap(nopLogger{})
+		}
+		if !t.sys {
+			t.sys = true
+			// the first caller builds the process-global index inside sync.Once: it must not be
+			// parked while the others would block on the Once
+			sched.Hold()
+			err := t.fm.UseSystemFonts(sysCacheDir)
+			sched.Release()
+			if err != nil {
+				h = mix(h, 0xE44)
+			}
+		}
+		t.fm.SetQuery(fontscan.Query{Families: []string{c.fam}})
+		for _, r := range c.text {
+			f := t.fm.ResolveFace(r)
+			if f == nil {
+				h = mix(h, 0)
+				continue
+			}
+			loc := t.fm.FontLocation(f.Font)
+			h = mixStr(h, baseName(loc.File))
+			h = mix(h, uint64(loc.Index)^uint64(loc.Instance)<<16)
+			g, _ := f.NominalGlyph(r)
+			h = mix(h, uint64(g))
+		}
 	case kFmadd, kFmresolve:
 		if t.fm == nil {
 			t.fm = fontscan.NewFontMap(nopLogger{})
@@ -531,6 +606,13 @@ func (e *scEngine) Execute(raw json.RawMessage) (*kernel.Outcome, error) {
 	for i, p := range c.Tasks {
 		progs[i] = compile(p, len(c.Fonts))
 	}
+	if len(c.SysFonts) > 0 {
+		cleanup, err := installSysFonts(c.SysFonts)
+		if err != nil {
+			return nil, err
+		}
+		defer cleanup()
+	}
 	// solo reference runs on separately parsed fonts (so that no hidden first-use memo of the
 	// shared fonts is populated, under a happens-before edge, before the concurrent phase)
 	refFonts, err := parseFonts(c.Fonts)
@@ -539,11 +621,31 @@ func (e *scEngine) Execute(raw json.RawMessage) (*kernel.Outcome, error) {
 	}
 	refs := make([]*taskResult, len(progs))
 	soloTicks := make([]uint64, len(progs))
-	for i, p := range progs {
-		refs[i] = newResult(len(p))
-		before := sched.Ticks()
-		runProgram(&taskState{fonts: refFonts, faces: make([]*font.Face, len(refFonts))}, p, refs[i])
-		soloTicks[i] = sched.Ticks() - before
+	solo := func() {
+		for i, p := range progs {
+			refs[i] = newResult(len(p))
+			before := sched.Ticks()
+			runProgram(&taskState{fonts: refFonts, faces: make([]*font.Face, len(refFonts))}, p, refs[i])
+			soloTicks[i] = sched.Ticks() - before
+		}
+	}
+	resetSys := func() {
+		if len(c.SysFonts) > 0 {
+			// each phase builds the global index from scratch
+			fontscan.VerifResetSystemFonts()
+			os.RemoveAll(sysCacheDir)
+			os.MkdirAll(sysCacheDir, 0o755)
+		}
+	}
+	// Sweep plans need task A's solo tick count to place the park point, so their reference runs
+	// come first. Every other plan runs the concurrent phase FIRST: package-level state that the
+	// library fills lazily on first use (which no per-run reset can know about) is then still
+	// untouched by this run when the tasks meet it, instead of having been filled, race-free, by
+	// the coordinator's reference runs.
+	soloFirst := c.Plan.Kind == "sweep"
+	if soloFirst {
+		solo()
+		resetSys()
 	}
 	shared, err := parseFonts(c.Fonts)
 	if err != nil {
@@ -569,11 +671,16 @@ func (e *scEngine) Execute(raw json.RawMessage) (*kernel.Outcome, error) {
 	}
 	sched.Run(tasks, plan)
 	got := readResults(results)
+	concTicks := sched.Ticks()
+	if !soloFirst {
+		resetSys()
+		solo()
+	}
 
 	// evidence
 	out.Count("op.simulation", 1)
 	out.Count("tasks", int64(len(progs)))
-	out.Count("ticks", int64(sched.Ticks()))
+	out.Count("ticks", int64(concTicks))
 	out.Count("plan."+plan.Kind, 1)
 	switchesInside := 0
 	trace := uint64(len(progs))
@@ -751,4 +858,71 @@ func (e *scEngine) Shrink(raw json.RawMessage, class string, test func(json.RawM
 		return raw
 	}
 	return b
+}
+
+// installSysFonts writes corpus fonts into a scratch directory that the library will scan as
+// the system font directory (hook VerifFontDirs) and re-arms the global initialisation.
+func installSysFonts(files []string) (cleanup func(), err error) {
+	base := os.Getenv("VERIF_SCRATCH")
+	if base == "" {
+		base = "/dev/shm"
+		if st, e := os.Stat(base); e != nil || !st.IsDir() {
+			base = os.TempDir()
+		}
+	}
+	// fixed-width name: path lengths must not differ between processes
+	d := fmt.Sprintf("%s/verif-sc-%08d", base, os.Getpid()%100000000)
+	os.RemoveAll(d)
+	if err = os.MkdirAll(d+"/fonts", 0o755); err != nil {
+		return nil, err
+	}
+	for i, f := range files {
+		ext := ".ttf"
+		if strings.HasSuffix(f, ".otf") {
+			ext = ".otf"
+		}
+		if err = os.WriteFile(fmt.Sprintf("%s/fonts/sys%d%s", d, i, ext), corpus.Bytes(f), 0o644); err != nil {
+			os.RemoveAll(d)
+			return nil, err
+		}
+	}
+	sysCacheDir = d + "/cache"
+	os.MkdirAll(sysCacheDir, 0o755)
+	fontscan.VerifFontDirs = []string{d + "/fonts"}
+	fontscan.VerifResetSystemFonts()
+	return func() {
+		fontscan.VerifFontDirs = nil
+		fontscan.VerifResetSystemFonts()
+		os.RemoveAll(d)
+	}, nil
+}
+
+// scriptNoLib guesses the script of a text from Go's own Unicode tables: the coordinator must
+// not call into the library's lookup functions before the tasks do (see Execute).
+func scriptNoLib(text []rune) language.Script {
+	for _, r := range text {
+		switch {
+		case unicode.Is(unicode.Latin, r):
+			return language.Latin
+		case unicode.Is(unicode.Arabic, r):
+			return language.Arabic
+		case unicode.Is(unicode.Hebrew, r):
+			return language.Hebrew
+		case unicode.Is(unicode.Cyrillic, r):
+			return language.Cyrillic
+		case unicode.Is(unicode.Greek, r):
+			return language.Greek
+		case unicode.Is(unicode.Devanagari, r):
+			return language.Devanagari
+		case unicode.Is(unicode.Thai, r):
+			return language.Thai
+		case unicode.Is(unicode.Han, r):
+			return language.Han
+		case unicode.Is(unicode.Hangul, r):
+			return language.Hangul
+		case unicode.Is(unicode.Mongolian, r):
+			return language.Mongolian
+		}
+	}
+	return language.Latin
 }
